@@ -52,6 +52,17 @@ def coq_fields(f, who):
     return 'KRSA %s %s' % (_b(f[1], who), _b(f[2], who))
 
 
+def coq_diffs(vc, vs):
+    """the fields in which the server's view differs from the client's, as a list of vdiff"""
+    out = []
+    for i, n in enumerate(('v_c', 'v_s', 'i_c', 'i_s', 'k_s')):
+        if vc[n] != vs[n] or not isinstance(vc[n], (bytes, bytearray)):
+            out.append('DB %d %s' % (i, _b(vs[n], 's')))
+    if vc['fields'] != vs['fields'] or not W.view_complete(vc):
+        out.append('DF (%s)' % coq_fields(vs['fields'], 's'))
+    return clist(out)
+
+
 def coq_view(v, who, kk=b''):
     return '(mkView %s %s %s %s %s (%s) %s)' % (_b(v['v_c'], who), _b(v['v_s'], who), _b(v['i_c'], who),
                                                  _b(v['i_s'], who), _b(v['k_s'], who), coq_fields(v['fields'], who),
@@ -582,11 +593,11 @@ def stage_sweep(ctx, rec, aead):
             exact = (not gex_old) and is_exact(fam, spec)
             same = W.bound_part(vc) == W.bound_part(vs)
             ctx.note_case(('sweep', kex, tuple(map(str, spec))), nontrivial=True)
-            if len(sweep_cases) < (4000 if thorough else 700) and (exact or completed):
-                sweep_cases.append('(%s, %s, %s, %s)' % (coq_view(vc, 'c'), coq_view(vs, 's'), cbool(completed), cbool(exact)))
+            if len(sweep_cases) < (3000 if thorough else 360) and (exact or completed) and (thorough or spec[0] != 'kexinit' or kex in methods[:2]):
+                sweep_cases.append('(%s, %s, %s, %s)' % (coq_view(vc, 'c'), coq_diffs(vc, vs), cbool(completed), cbool(exact)))
                 sweep_meta.append((kex, spec, completed, same))
             # the bytes each side really hashed, under the edit
-            if len(hcases) < (2500 if thorough else 500) and (spec[0] != 'byte' or completed):
+            if len(hcases) < (1500 if thorough else 150) and (spec[0] != 'byte' or completed) and (thorough or spec[0] != 'kexinit' or rng.random() < 0.15):
                 for who, v in (('c', vc), ('s', vs)):
                     hc = hash_cases(r, who, v)
                     if hc:
@@ -615,12 +626,12 @@ def stage_sweep(ctx, rec, aead):
             f'{len(sweep_cases)} sweep cases, {len(hcases)} hash cases for Coq')
     co = ctx.cov['oracle']
     co.update(sweep_sessions=nsess, sweep_edits_applied=napplied, sweep_completed=ncompleted, sweep_stalled=stalls)
-    bad = ctx.coq_cases('sweep', IMPORTS, 'chk_sweep', sweep_cases, ty='view * view * bool * bool', shard=60)
+    bad = ctx.coq_cases('sweep', IMPORTS, 'chk_sweep', sweep_cases, ty='view * list vdiff * bool * bool', shard=40)
     if bad:
         k, spec, comp, same = sweep_meta[bad[0]]
         ctx.broke('correspondence:sweep', f'{len(bad)} of {len(sweep_cases)} differ; first: kex={k} edit={spec} '
                                            f'completed={comp} views_equal={same}')
-    bad = ctx.coq_cases('hash_input', IMPORTS, 'chk_hash', hcases, ty='view * bytes * bool', shard=60)
+    bad = ctx.coq_cases('hash_input', IMPORTS, 'chk_hash', hcases, ty='view * bytes * bool', shard=25)
     if bad:
         k, who, spec = hmeta[bad[0]]
         ctx.broke('correspondence:hash_input', f'{len(bad)} of {len(hcases)} differ; first: kex={k} side={who} edit={spec}')
@@ -713,10 +724,11 @@ def stage_negotiate(ctx, rec, aead):
         if completed:
             okc += 1
             obs = observed_negotiation(r)
+            gots = [[obs[who][x] for x in NAMES8] for who in ('c', 's')]
+            cases.append('(%s, %s, %s, Some %s)' % (clist(aead, hx), hx(ic), hx(is_),
+                                                    clist(gots, lambda g: clist(g, lambda x: copt(x, hx)))))
+            meta.append((desc, 'c+s', gots))
             for who in ('c', 's'):
-                got = [obs[who][x] for x in NAMES8]
-                cases.append('(%s, %s, %s, Some %s)' % (clist(aead, hx), hx(ic), hx(is_), clist(got, lambda x: copt(x, hx))))
-                meta.append((desc, who, got))
                 # direct oracle: first entry of the client's list that the server also lists
                 for x in NAMES8:
                     if obs[who][x] is not None and (not exp_ok or obs[who][x] != exp[x]):
@@ -741,7 +753,7 @@ def stage_negotiate(ctx, rec, aead):
         if i < 2:
             ctx.sample({'negotiate': desc, 'observed': {k: (v.decode() if v else None) for k, v in (observed_negotiation(r)['c'].items() if completed else [])}})
     bad = ctx.coq_cases('negotiate', IMPORTS, 'chk_negotiate', cases,
-                        ty='list bytes * bytes * bytes * option (list (option bytes))', shard=80)
+                        ty='list bytes * bytes * bytes * option (list (list (option bytes)))', shard=20)
     if bad:
         d, who, got = meta[bad[0]]
         ctx.broke('correspondence:negotiate', f'{len(bad)} of {len(cases)} differ; first: {d} side={who} observed={got}')
@@ -846,6 +858,10 @@ async def forging_server():
         await link.until(task.done, 'connect()', serve=link.serve, timeout=20)
     except Exception as e:                   # noqa
         out['error'] = type(e).__name__
+    for _ in range(50):
+        if task.done():
+            break
+        await asyncio.sleep(0)
     if task.done() and not task.cancelled():
         if task.exception() is None:
             out['completed'] = True
